@@ -621,7 +621,25 @@ def run(ctx):
             ctx.notes.append('model does not build against the regenerated Generated.v: ' + model_broken[-600:])
     h = ctx.build_harness('iter_walk.c', whitebox='Table')
     henv = dict(os.environ, H_TIMEOUT='4')          # a case takes microseconds; a hang is an observation (TIMEOUT)
-    run_impl = lambda cs: ctx.run_lines(h, cs, env=henv, timeout=3000)[1]
+    stats = {'forked': 0, 'inprocess': 0}
+
+    def hybrid(exe, env):
+        """chunks run inside ONE harness process first (H_NOFORK, ~25x faster); a chunk whose process crashes, hangs or
+        loses a line is re-run with every case in its own forked child, so that the crash/hang is an observation"""
+        def run(cs):
+            out = []
+            for i in range(0, len(cs), 1000):
+                chunk = cs[i:i + 1000]
+                rc, lines, err = ctx.run_lines(exe, chunk, env=dict(env, H_NOFORK='1'), timeout=60)
+                if rc != 0 or len(lines) != len(chunk):
+                    rc, lines, err = ctx.run_lines(exe, chunk, env=env, timeout=3000)
+                    stats['forked'] += len(chunk)
+                else:
+                    stats['inprocess'] += len(chunk)
+                out += lines
+            return out
+        return run
+    run_impl = hybrid(h, henv)
     run_model = (lambda cs: ctx.run_lines(drv, cs, args=['model'])[1]) if drv else None
     run_spec = lambda cs: [spec_line(c) for c in cs]
     d = vlib.Differential(ctx, 'iter', run_impl, run_model, run_spec, oracle, corr, nontrivial, classify=classify)
@@ -665,21 +683,24 @@ def run(ctx):
     if quick:
         B = 12
         cases = list(range_box(B))
-        # slices: exhaustive start/stop box over an Array for the lengths 0..9; steps: all of [-B,B] for two lengths, else a subset
+        # slices over an Array: the WHOLE box start,stop in [-12,12] or omitted, step in [-12,12]\{0} or omitted, lengths 0..9
+        allsteps = [t for t in opt_box(B) if t != 0]
         for n in range(0, 10):
-            steps = [t for t in opt_box(B) if t != 0] if n in (4, 7) else ['_', 1, -1, 2, -2, 3, -3, n, -n, n + 1, -n - 1, 12, -12]
-            steps = list(dict.fromkeys(t for t in steps if t != 0))
-            cases += list(slice_box('arr', n, min(B, n + 3), steps))
-        # the other containers: seeded sample of the same box
+            cases += list(slice_box('arr', n, B, allsteps))
+        # the other containers: lengths 0,2,5,9, start/stop in [-(n+3),n+3] or omitted (anything beyond clamps the same way)
         for kind in ('list', 'tup', 'tab', 'tree'):
+            for n in (0, 2, 5, 9):
+                steps = list(dict.fromkeys(t for t in ['_', 1, -1, 2, -2, 3, -3, n, -n, n + 1, -n - 1, 12, -12] if t != 0))
+                cases += list(slice_box(kind, n, min(B, n + 3), steps))
             for _ in range(500):
                 n = rng.randrange(0, 10)
-                cases.append('slice %s %s %s' % (a_s([rng.choice(opt_box(B)), rng.choice(opt_box(B)), rng.choice([t for t in opt_box(B) if t != 0])]),
+                cases.append('slice %s %s %s' % (a_s([rng.choice(opt_box(B)), rng.choice(opt_box(B)), rng.choice(allsteps)]),
                                                  kind, a_s(contents(rng, n, kind))))
         cases += [unparse(gen_expr(rng, rng.choice([1, 2, 2, 3, 3]), 9)) for _ in range(6000)]
         ctx.cov['exhaustive'] = {'range_box': 'all range(a,b,s), a,s in [-12,12] or omitted, b in [-12,12], s != 0',
-                                 'slice_box': 'slice(a,b,s) over Arrays of length 0..9, a,b in [-(n+3),n+3] or omitted, '
-                                              's in [-12,12] (lengths 4, 7) or {_,+-1,+-2,+-3,+-n,+-(n+1),+-12}'}
+                                 'slice_box_array': 'all slice(a,b,s) over Arrays of length 0..9, a,b in [-12,12] or omitted, s in [-12,12]\\{0} or omitted',
+                                 'slice_box_other': 'List/Tuple/Table/Tree of length 0,2,5,9: all a,b in [-(n+3),n+3] or omitted, '
+                                                    's in {_,+-1,+-2,+-3,+-n,+-(n+1),+-12}'}
     else:
         B = 45
         cases = list(range_box(20))
@@ -706,7 +727,7 @@ def run(ctx):
         ctx.build_lib(tag='asan', cflags=['-fsanitize=address', '-fno-omit-frame-pointer'])
         ha = ctx.build_harness('iter_walk.c', tag='asan', whitebox='Table', extra=['-fsanitize=address'])
         env = dict(os.environ, ASAN_OPTIONS='detect_leaks=0:abort_on_error=1', H_TIMEOUT='10')
-        d_asan = vlib.Differential(ctx, 'iter_asan', lambda cs: ctx.run_lines(ha, cs, env=env, timeout=3000)[1], None,
+        d_asan = vlib.Differential(ctx, 'iter_asan', hybrid(ha, env), None,
                                    run_spec, oracle, corr, nontrivial, classify=classify)
         sample = CORPUS + boundary_cases() + rng.sample(cases, min(len(cases), 40000))
         for i in range(0, len(sample), 5000):
@@ -717,6 +738,8 @@ def run(ctx):
         if d_asan.oracle_fail:
             d.oracle_fail += d_asan.oracle_fail
     ctx.cov['features'] = dict(sorted(FEAT_HIST.items()))
+    ctx.cov['harness_mode'] = dict(stats, note='inprocess = chunk of 1000 cases in one harness process; forked = chunk re-run '
+                                               'with one child per case because the in-process run crashed, hung or lost a line')
     if os.environ.get('C11_DEBUG'):
         print('oracle_fail %d corr_fail %d' % (len(d.oracle_fail), len(d.corr_fail)))
         nc = [x for x in d.corr_fail if 'CRASH' not in x[4]]
